@@ -1,4 +1,1352 @@
-//! C15 monitor (not written yet).
-use crate::ctx::Ctx;
+//! C15 — field/variant names are everywhere identified with the spec hash of their UTF-8 bytes.
+//!
+//! Oracle R5 = `model::misc::label_hash` (arithmetic in u64 mod 2^32, written from the spec), the
+//! reference wire decoder R1 (rejects unsorted / duplicate ids) and structural type equality R3.
+#![allow(non_snake_case, non_camel_case_types)]
+use super::common::{diff, err_class};
+use super::textgen::*;
+use crate::conv::*;
+use crate::ctx::{catch, hex, Ctx};
+use crate::gen::types::*;
+use crate::gen::values::*;
+use crate::model::leb::leb_u64;
+use crate::model::misc::label_hash;
+use crate::model::subtype::requal2;
+use crate::model::wire;
+use crate::model::*;
+use crate::rng::{hash_str, Rng};
+use candid::types::value::{IDLField, IDLValue, VariantValue};
+use candid::types::{Label, Type, TypeEnv, TypeInner};
+use candid::{CandidType, Decode, Encode, IDLArgs};
+use candid_parser::syntax::IDLType;
+use serde::Deserialize;
+use serde_json::json;
+use std::collections::{BTreeMap, HashMap};
+use std::hash::{Hash, Hasher};
 
-pub fn run(_ctx: &mut Ctx) {}
+// ---------------------------------------------------------------------------------------
+// strings
+
+fn gen_name(rng: &mut Rng) -> String {
+    match rng.below(8) {
+        0..=4 => gen_label(rng),
+        5 => gen_text(rng),
+        6 => {
+            // long names: the hash wraps many times
+            let n = 20 + rng.usize(200);
+            (0..n).map(|_| gen_char(rng)).collect()
+        }
+        _ => {
+            // high bytes everywhere (multi-byte scalars only)
+            let n = 1 + rng.usize(6);
+            (0..n)
+                .map(|_| char::from_u32(0x80 + rng.below(0x10ff00) as u32).unwrap_or('\u{fffd}'))
+                .collect()
+        }
+    }
+}
+
+fn name_class(s: &str) -> &'static str {
+    if s.is_empty() {
+        "empty"
+    } else if LEXER_KEYWORDS.contains(&s) || PRIM_NAMES.contains(&s) {
+        "candid-keyword"
+    } else if is_plain_id(s) {
+        "ascii-identifier"
+    } else if s.chars().all(|c| c.is_ascii_digit() || c == '_' || c == 'x' || c == '-') {
+        "numeric-looking"
+    } else if s.is_ascii() {
+        "ascii-other"
+    } else {
+        "unicode"
+    }
+}
+
+fn std_hash<T: Hash>(x: &T) -> u64 {
+    let mut h = std::collections::hash_map::DefaultHasher::new();
+    x.hash(&mut h);
+    h.finish()
+}
+
+// ---------------------------------------------------------------------------------------
+// family 1: the hash function and Label
+
+fn hash_family(ctx: &mut Ctx, rng: &mut Rng) {
+    let s = gen_name(rng);
+    let h = label_hash(&s);
+    let class = name_class(&s);
+    let input = || json!({"name": s, "reference_hash": h});
+    match catch(|| candid::idl_hash(&s)) {
+        Ok(x) if x == h => ctx.count("agree:idl_hash"),
+        Ok(x) => ctx.violation(
+            &format!("idl_hash-mismatch|{class}"),
+            &format!("idl_hash({s:?}) = {x}, the spec hash is {h}"),
+            input(),
+        ),
+        Err(p) => ctx.violation(&format!("panic|idl_hash|{}", p.sig()), &p.message, input()),
+    }
+    let named = Label::Named(s.clone());
+    let id = Label::Id(h);
+    let un = Label::Unnamed(h);
+    let r = catch(|| {
+        let mut bad: Vec<String> = Vec::new();
+        for (n, l) in [("Named", &named), ("Id", &id), ("Unnamed", &un)] {
+            if l.get_id() != h {
+                bad.push(format!("get_id:{n}"));
+            }
+        }
+        let all = [&named, &id, &un];
+        for a in all {
+            for b in all {
+                if a != b {
+                    bad.push("eq".into());
+                }
+                if a.cmp(b) != std::cmp::Ordering::Equal || a.partial_cmp(b) != Some(std::cmp::Ordering::Equal) {
+                    bad.push("cmp".into());
+                }
+                if std_hash(a) != std_hash(b) {
+                    bad.push("hash".into());
+                }
+            }
+        }
+        // insert under one spelling, look up under the other
+        let mut hm: HashMap<Label, u32> = HashMap::new();
+        hm.insert(named.clone(), 1);
+        if hm.get(&id) != Some(&1) || hm.get(&un) != Some(&1) {
+            bad.push("hashmap-lookup".into());
+        }
+        hm.insert(id.clone(), 2);
+        if hm.len() != 1 || hm.get(&named) != Some(&2) {
+            bad.push("hashmap-replace".into());
+        }
+        let mut bm: BTreeMap<Label, u32> = BTreeMap::new();
+        bm.insert(id.clone(), 1);
+        if bm.get(&named) != Some(&1) || bm.get(&un) != Some(&1) {
+            bad.push("btreemap-lookup".into());
+        }
+        bm.insert(named.clone(), 2);
+        if bm.len() != 1 || bm.get(&un) != Some(&2) {
+            bad.push("btreemap-replace".into());
+        }
+        bad
+    });
+    match r {
+        Ok(bad) if bad.is_empty() => ctx.count("agree:label-self-consistent"),
+        Ok(bad) => ctx.violation(
+            &format!("label-inconsistent|{}|{class}", bad[0]),
+            &format!("Label spellings of {s:?} / {h} disagree on: {bad:?}"),
+            input(),
+        ),
+        Err(p) => ctx.violation(&format!("panic|label|{}", p.sig()), &p.message, input()),
+    }
+    // against another label: order and equality are those of the ids
+    let (other, ho) = match rng.below(4) {
+        0 => {
+            let k = rng.next() as u32;
+            (Label::Id(k), k)
+        }
+        1 => {
+            let k = h.wrapping_add(rng.below(3) as u32).wrapping_sub(1);
+            (Label::Unnamed(k), k)
+        }
+        _ => {
+            let t = gen_name(rng);
+            let k = label_hash(&t);
+            (Label::Named(t), k)
+        }
+    };
+    let ok = named.cmp(&other) == h.cmp(&ho)
+        && id.cmp(&other) == h.cmp(&ho)
+        && other.cmp(&named) == ho.cmp(&h)
+        && (named == other) == (h == ho)
+        && (other == un) == (h == ho)
+        && (h != ho || std_hash(&named) == std_hash(&other));
+    if ok {
+        ctx.count("agree:label-order");
+    } else {
+        ctx.violation(
+            &format!("label-order-mismatch|{class}"),
+            &format!("{named:?} (id {h}) vs {other:?} (id {ho}): cmp/eq do not follow the ids"),
+            json!({"name": s, "other": format!("{other:?}")}),
+        );
+    }
+    // a list of labels sorts like the list of ids
+    if rng.chance(1, 8) {
+        let mut ls: Vec<Label> = (0..6)
+            .map(|_| match rng.below(3) {
+                0 => Label::Id(rng.next() as u32),
+                1 => Label::Unnamed(rng.below(5) as u32),
+                _ => Label::Named(gen_name(rng)),
+            })
+            .collect();
+        let mut ids: Vec<u32> = ls
+            .iter()
+            .map(|l| match l {
+                Label::Id(k) | Label::Unnamed(k) => *k,
+                Label::Named(n) => label_hash(n),
+            })
+            .collect();
+        ls.sort();
+        ids.sort();
+        let got: Vec<u32> = ls.iter().map(|l| l.get_id()).collect();
+        if got != ids {
+            ctx.violation(
+                "label-sort-mismatch",
+                &format!("sorted labels give ids {got:?}, sorted reference ids {ids:?}"),
+                json!({"labels": format!("{ls:?}")}),
+            );
+        }
+    }
+    ctx.count(&format!("cover:name-class:{class}"));
+    ctx.nontrivial(hash_str(&s));
+    ctx.sample(input);
+}
+
+// ---------------------------------------------------------------------------------------
+// family 2: colliding pairs
+
+/// Known colliding identifier pairs (found offline; verified against R5 at run time).
+const FIXED_PAIRS: &[(&str, &str)] = &[("kviccgm", "jmst"), ("vmgunot", "ugidop"), ("rf_kdyb", "kmoz")];
+
+fn birthday(seed: u64) -> Vec<(String, String)> {
+    let mut rng = Rng::new(seed ^ 0xC15C_0111_5105);
+    let mut seen: HashMap<u32, String> = HashMap::with_capacity(400_000);
+    let mut out = Vec::new();
+    let alpha: Vec<char> = "abcdefghijklmnopqrstuvwxyz0123456789_".chars().collect();
+    for _ in 0..300_000 {
+        let s: String = match rng.below(10) {
+            0..=5 => {
+                let n = 2 + rng.usize(5);
+                (0..n)
+                    .map(|i| if i == 0 { alpha[rng.usize(26)] } else { *rng.pick(&alpha) })
+                    .collect()
+            }
+            6 | 7 => {
+                let n = 1 + rng.usize(3);
+                (0..n).map(|_| gen_char(&mut rng)).collect()
+            }
+            _ => {
+                let n = 1 + rng.usize(5);
+                (0..n).map(|_| (0x20 + rng.below(0x5f) as u8) as char).collect()
+            }
+        };
+        let h = label_hash(&s);
+        match seen.get(&h) {
+            Some(t) if *t != s => out.push((t.clone(), s)),
+            Some(_) => {}
+            None => {
+                seen.insert(h, s);
+            }
+        }
+        if out.len() >= 24 {
+            break;
+        }
+    }
+    out
+}
+
+fn expect_reject<T>(ctx: &mut Ctx, what: &str, text: &str, r: Result<Result<T, String>, crate::ctx::PanicInfo>) {
+    match r {
+        Ok(Err(_)) => ctx.count(&format!("agree:collision-rejected:{what}")),
+        Ok(Ok(_)) => ctx.violation(
+            &format!("collision-accepted|{what}"),
+            &format!("{what} accepted two labels with one id: {text}"),
+            json!({"text": text}),
+        ),
+        Err(p) => ctx.violation(
+            &format!("panic|collision|{what}|{}", short(&p.location)),
+            &format!("{what} panicked on {text}: {}", p.message),
+            json!({"text": text}),
+        ),
+    }
+}
+fn expect_accept<T>(ctx: &mut Ctx, what: &str, text: &str, r: Result<Result<T, String>, crate::ctx::PanicInfo>) -> Option<T> {
+    match r {
+        Ok(Ok(x)) => {
+            ctx.count(&format!("agree:control-accepted:{what}"));
+            Some(x)
+        }
+        Ok(Err(e)) => {
+            ctx.violation(
+                &format!("control-rejected|{what}|{}", digitless(&e)),
+                &format!("{what} rejected a text without any collision: {text}: {e}"),
+                json!({"text": text}),
+            );
+            None
+        }
+        Err(p) => {
+            ctx.violation(
+                &format!("panic|control|{what}|{}", short(&p.location)),
+                &format!("{what} panicked on {text}: {}", p.message),
+                json!({"text": text}),
+            );
+            None
+        }
+    }
+}
+
+fn short(loc: &str) -> String {
+    loc.rsplit('/').next().unwrap_or(loc).to_string()
+}
+fn digitless(e: &str) -> String {
+    e.lines().next().unwrap_or("").chars().filter(|c| !c.is_ascii_digit()).take(40).collect()
+}
+
+fn parse_type(s: &str) -> Result<Type, String> {
+    let ast = s.parse::<IDLType>().map_err(|e| e.to_string())?;
+    candid_parser::typing::ast_to_type(&TypeEnv::new(), &ast).map_err(|e| e.to_string())
+}
+
+fn collisions_family(ctx: &mut Ctx, rng: &mut Rng, pairs: &[(String, String)]) {
+    // which pair: a found one, a fixed one, or a name and its own numeric id
+    let k = rng.usize(pairs.len() + FIXED_PAIRS.len() + 3);
+    // `b_is_id`: the second label is the numeric id of the first name
+    let b_is_id = k >= pairs.len() + FIXED_PAIRS.len();
+    let (a, b): (String, String) = if k < pairs.len() {
+        pairs[k].clone()
+    } else if k < pairs.len() + FIXED_PAIRS.len() {
+        let p = FIXED_PAIRS[k - pairs.len()];
+        (p.0.to_string(), p.1.to_string())
+    } else {
+        let n = gen_name(rng);
+        let h = label_hash(&n);
+        (n, h.to_string())
+    };
+    let ha = label_hash(&a);
+    let hb = if b_is_id { ha } else { label_hash(&b) };
+    if ha != hb || ha == u32::MAX || lexer_ub_risk(&quote(&a)) {
+        ctx.count("excluded:not-a-collision");
+        return;
+    }
+    ctx.count(if k < pairs.len() {
+        "cover:collision:birthday-pair"
+    } else if k < pairs.len() + FIXED_PAIRS.len() {
+        "cover:collision:fixed-pair"
+    } else {
+        "cover:collision:name-vs-own-id"
+    });
+    let sa = spell_name(rng, &a);
+    let sb = if b_is_id { b.clone() } else { spell_name(rng, &b) };
+    let (x, y) = if rng.bool() { (sa.clone(), sb.clone()) } else { (sb.clone(), sa.clone()) };
+    // other field to show that the shape itself is fine
+    let other = "zz_other_field";
+    match rng.below(9) {
+        0 => {
+            let t = format!("record {{ {x} : nat; {y} : text }}");
+            expect_reject(ctx, "type-parser:record", &t, catch(|| parse_type(&t)));
+            let c = format!("record {{ {x} : nat; {other} : text }}");
+            expect_accept(ctx, "type-parser:record", &c, catch(|| parse_type(&c)));
+        }
+        1 => {
+            let t = format!("variant {{ {x}; {y} : text }}");
+            expect_reject(ctx, "type-parser:variant", &t, catch(|| parse_type(&t)));
+            let c = format!("variant {{ {y}; {other} : text }}");
+            expect_accept(ctx, "type-parser:variant", &c, catch(|| parse_type(&c)));
+        }
+        2 => {
+            let t = format!("record {{ {x} = 1; {y} = \"two\" }}");
+            expect_reject(ctx, "value-parser:record", &t, catch(|| candid_parser::parse_idl_value(&t).map_err(|e| e.to_string())));
+            let c = format!("record {{ {x} = 1; {other} = \"two\" }}");
+            expect_accept(ctx, "value-parser:record", &c, catch(|| candid_parser::parse_idl_value(&c).map_err(|e| e.to_string())));
+        }
+        3 => {
+            let t = format!("(1, record {{ {other} = true; {x} = 1; {y} = 2 }})");
+            expect_reject(ctx, "args-parser:record", &t, catch(|| candid_parser::parse_idl_args(&t).map_err(|e| e.to_string())));
+        }
+        4 => {
+            let t = format!("type T = record {{ {x} : nat; {y} : nat }}; service : {{ f : (T) -> () }}");
+            expect_reject(ctx, "prog-parser:record", &t, catch(|| t.parse::<candid_parser::IDLProg>().map(|_| ()).map_err(|e| e.to_string())));
+            let c = format!("type T = record {{ {x} : nat }}; type U = record {{ {y} : nat }}; service : {{ f : (T) -> (U) }}");
+            expect_accept(ctx, "prog-parser:record", &c, catch(|| c.parse::<candid_parser::IDLProg>().map(|_| ()).map_err(|e| e.to_string())));
+        }
+        5 => {
+            let t = format!("(record {{ {other} : bool; {x} : nat; {y} : nat }}) ");
+            expect_reject(ctx, "types-parser:record", &t, catch(|| t.parse::<candid_parser::syntax::IDLTypes>().map(|_| ()).map_err(|e| e.to_string())));
+        }
+        6 => {
+            // nested: the collision sits two levels down
+            let t = format!("opt vec record {{ a : variant {{ {x} : nat; {y} }} }}");
+            expect_reject(ctx, "type-parser:nested-variant", &t, catch(|| parse_type(&t)));
+        }
+        7 => {
+            // labels built directly
+            let la = Label::Named(a.clone());
+            let lb = if b_is_id { Label::Id(ha) } else { Label::Named(b.clone()) };
+            if la != lb || la.cmp(&lb) != std::cmp::Ordering::Equal || std_hash(&la) != std_hash(&lb) {
+                ctx.violation(
+                    "collision|labels-with-one-id-differ",
+                    &format!("{la:?} and {lb:?} have the id {ha} but are not equal/Equal/same hash"),
+                    json!({"a": a, "b": b}),
+                );
+            } else {
+                ctx.count("agree:colliding-labels-equal");
+            }
+            // check_unique is what the parsers and macros rely on
+            let fs = [la, lb];
+            match catch(|| candid::utils::check_unique(fs.iter())) {
+                Ok(Err(_)) => ctx.count("agree:collision-rejected:check_unique"),
+                Ok(Ok(())) => ctx.violation(
+                    "collision-accepted|check_unique",
+                    "check_unique accepted two labels with one id",
+                    json!({"a": a, "b": b}),
+                ),
+                Err(p) => ctx.violation(&format!("panic|check_unique|{}", short(&p.location)), &p.message, json!({"a": a, "b": b})),
+            }
+        }
+        _ => {
+            // both spellings alone denote the same one-field record
+            let t1 = format!("record {{ {sa} : nat }}");
+            let t2 = format!("record {{ {sb} : nat }}");
+            let r1 = expect_accept(ctx, "type-parser:single", &t1, catch(|| parse_type(&t1)));
+            let r2 = expect_accept(ctx, "type-parser:single", &t2, catch(|| parse_type(&t2)));
+            if let (Some(t1c), Some(t2c)) = (r1, r2) {
+                same_type(ctx, &t1c, &t2c, &RType::Record(vec![(ha, RType::Nat)]), &t1, &t2, "collision-pair");
+            }
+        }
+    }
+    ctx.nontrivial(hash_str(&format!("{a}|{b}")));
+    ctx.sample(|| json!({"a": a, "b": b, "id": ha}));
+}
+
+fn same_type(ctx: &mut Ctx, a: &Type, b: &Type, model: &RType, ta: &str, tb: &str, what: &str) {
+    let empty = TypeEnv::new();
+    match (from_candid(&empty, &[a.clone()]), from_candid(&empty, &[b.clone()])) {
+        (Ok((ea, tsa)), Ok((eb, tsb))) => {
+            let ok = requal2(&ea, &tsa[0], &eb, &tsb[0]) && requal2(&ea, &tsa[0], &REnv::new(), model);
+            if ok {
+                ctx.count(&format!("agree:same-type:{what}"));
+            } else {
+                ctx.violation(
+                    &format!("name-vs-id-type-mismatch|{what}"),
+                    &format!("`{ta}` means {} and `{tb}` means {}; expected {model}", tsa[0], tsb[0]),
+                    json!({"named": ta, "numeric": tb}),
+                );
+            }
+            // sorted by id
+            for t in [&tsa[0], &tsb[0]] {
+                if let RType::Record(fs) | RType::Variant(fs) = t {
+                    if fs.windows(2).any(|w| w[0].0 >= w[1].0) {
+                        ctx.violation(
+                            &format!("fields-not-sorted-by-id|{what}"),
+                            &format!("parsed type has field ids {:?}", fs.iter().map(|f| f.0).collect::<Vec<_>>()),
+                            json!({"named": ta, "numeric": tb}),
+                        );
+                    }
+                }
+            }
+        }
+        (x, y) => ctx.violation(
+            &format!("type-conversion-failed|{what}"),
+            &format!("{:?} / {:?}", x.err(), y.err()),
+            json!({"named": ta, "numeric": tb}),
+        ),
+    }
+}
+
+// ---------------------------------------------------------------------------------------
+// family 3: parser path
+
+fn has_max_id(t: &RType) -> bool {
+    match t {
+        RType::Opt(x) | RType::Vec(x) => has_max_id(x),
+        RType::Record(fs) | RType::Variant(fs) => fs.iter().any(|f| f.0 == u32::MAX || has_max_id(&f.1)),
+        _ => false,
+    }
+}
+
+fn simple_cfg() -> TypeCfg {
+    TypeCfg {
+        max_defs: 0,
+        max_depth: 2,
+        max_fields: 3,
+        refs: false,
+        empty: false,
+        ref_pct: 0,
+    }
+}
+
+fn parser_family(ctx: &mut Ctx, rng: &mut Rng) {
+    let cfg = simple_cfg();
+    let n = 1 + rng.usize(4);
+    let mut names = Names::new();
+    let mut fields: Vec<(u32, RType)> = Vec::new();
+    let env0 = REnv::new();
+    for _ in 0..n {
+        let s = gen_name(rng);
+        if s.chars().count() > 60 || lexer_ub_risk(&quote(&s)) {
+            continue;
+        }
+        let h = label_hash(&s);
+        if fields.iter().any(|f| f.0 == h) {
+            continue;
+        }
+        let ft = gen_types(rng, &cfg, &env0, 1).pop().unwrap();
+        let ft = rename_fields(rng, &ft, &mut names, 50);
+        if names.get(&h).map(|x| x != &s).unwrap_or(false) {
+            continue;
+        }
+        names.insert(h, s);
+        fields.push((h, ft));
+    }
+    if fields.is_empty() || !names_consistent(&names) {
+        ctx.count("excluded:no-usable-name");
+        return;
+    }
+    fields.sort_by_key(|f| f.0);
+    if fields.iter().any(|f| has_max_id(&f.1) || f.0 == u32::MAX) {
+        // `record { 4294967295 : t }` overflows `id + 1` in the grammar action: C13's finding
+        ctx.count("excluded:field-id-u32-max(C13)");
+        return;
+    }
+    let is_variant = rng.chance(1, 3);
+    let model = if is_variant { RType::Variant(fields.clone()) } else { RType::Record(fields.clone()) };
+    let t_named = type_text(&model, Some(&names), rng);
+    let t_ids = type_text(&model, None, rng);
+    let what = if is_variant { "variant" } else { "record" };
+    let a = expect_accept(ctx, &format!("type-parser:{what}:named"), &t_named, catch(|| parse_type(&t_named)));
+    let b = expect_accept(ctx, &format!("type-parser:{what}:numeric"), &t_ids, catch(|| parse_type(&t_ids)));
+    if let (Some(a), Some(b)) = (&a, &b) {
+        same_type(ctx, a, b, &model, &t_named, &t_ids, what);
+        // Type equality / ordering as candid sees it
+        if a != b {
+            ctx.violation(
+                &format!("name-vs-id-type-not-eq|{what}"),
+                "candid's own `==` distinguishes the type written with names from the one written with ids",
+                json!({"named": t_named, "numeric": t_ids}),
+            );
+        }
+    }
+    // value path: a value of the type, written with names, then annotated with the numeric type
+    if let Some(tnum) = &b {
+        let vg = ValGen::new(&env0);
+        let mut fuel = 12;
+        if let Some(v) = vg.gen(rng, &model, &mut fuel) {
+            if let Ok(iv_named) = to_idl(&env0, &model, &v, Some(&names)) {
+                let text = value_text(&iv_named, rng);
+                let expect = model_value(&to_idl(&env0, &model, &v, None).unwrap());
+                match catch(|| candid_parser::parse_idl_value(&text).map_err(|e| e.to_string())) {
+                    Ok(Ok(pv)) => {
+                        // labels of the parsed value hash to the reference ids, sorted by id
+                        if let IDLValue::Record(fs) = &pv {
+                            let ids: Vec<u32> = fs.iter().map(|f| f.id.get_id()).collect();
+                            let want: Vec<u32> = fields.iter().map(|f| f.0).collect();
+                            if ids != want {
+                                ctx.violation(
+                                    "value-parser|record-ids-mismatch",
+                                    &format!("parsed record has ids {ids:?}, reference (sorted hashes) {want:?}"),
+                                    json!({"text": text}),
+                                );
+                            }
+                        }
+                        match catch(|| pv.annotate_type(true, &TypeEnv::new(), tnum).map_err(|e| e.to_string())) {
+                            Ok(Ok(av)) => {
+                                if let Some(d) = diff(&expect, &model_value(&av), &mut String::from("v")) {
+                                    ctx.violation(
+                                        "value-parser|named-value-vs-numeric-type|value-mismatch",
+                                        &format!("value written with names, annotated with the numeric type, differs at {d}"),
+                                        json!({"text": text, "type": t_ids}),
+                                    );
+                                } else {
+                                    ctx.count("agree:named-value-numeric-type");
+                                }
+                            }
+                            Ok(Err(e)) => ctx.violation(
+                                &format!("value-parser|named-value-vs-numeric-type|{}", digitless(&e)),
+                                &format!("value written with names does not annotate with the numeric type: {e}"),
+                                json!({"text": text, "type": t_ids}),
+                            ),
+                            Err(p) => ctx.violation(&format!("panic|annotate|{}", short(&p.location)), &p.message, json!({"text": text})),
+                        }
+                    }
+                    Ok(Err(e)) => ctx.violation(
+                        &format!("value-parser|rejects-named-value|{}", digitless(&e)),
+                        &format!("value text with quoted names rejected: {e}"),
+                        json!({"text": text}),
+                    ),
+                    Err(p) => ctx.violation(&format!("panic|value-parser|{}", short(&p.location)), &p.message, json!({"text": text})),
+                }
+            }
+        }
+    }
+    for (_, s) in names.iter() {
+        ctx.count(&format!("cover:parser-name-class:{}", name_class(s)));
+    }
+    ctx.nontrivial(hash_str(&t_named));
+    ctx.sample(|| json!({"named": t_named, "numeric": t_ids}));
+}
+
+/// My own value printer (labels through `spell_name`, numbers annotated inside parentheses).
+fn value_text(v: &IDLValue, rng: &mut Rng) -> String {
+    fn lab(l: &Label, rng: &mut Rng) -> String {
+        match l {
+            Label::Named(n) => spell_name(rng, n),
+            Label::Id(k) | Label::Unnamed(k) => k.to_string(),
+        }
+    }
+    match v {
+        IDLValue::Null | IDLValue::None => "null".into(),
+        IDLValue::Reserved => "(null : reserved)".into(),
+        IDLValue::Bool(b) => b.to_string(),
+        IDLValue::Text(s) => quote(s),
+        IDLValue::Nat(n) => format!("({} : nat)", n.0),
+        IDLValue::Int(n) => format!("({} : int)", n.0),
+        IDLValue::Nat8(n) => format!("({n} : nat8)"),
+        IDLValue::Nat16(n) => format!("({n} : nat16)"),
+        IDLValue::Nat32(n) => format!("({n} : nat32)"),
+        IDLValue::Nat64(n) => format!("({n} : nat64)"),
+        IDLValue::Int8(n) => format!("({n} : int8)"),
+        IDLValue::Int16(n) => format!("({n} : int16)"),
+        IDLValue::Int32(n) => format!("({n} : int32)"),
+        IDLValue::Int64(n) => format!("({n} : int64)"),
+        IDLValue::Float32(f) => format!("({:e} : float32)", *f as f64),
+        IDLValue::Float64(f) => format!("({f:e} : float64)"),
+        IDLValue::Opt(x) => format!("opt {}", value_text(x, rng)),
+        IDLValue::Vec(xs) => format!("vec {{ {} }}", xs.iter().map(|x| value_text(x, rng)).collect::<Vec<_>>().join("; ")),
+        IDLValue::Blob(b) => format!("blob \"{}\"", b.iter().map(|x| format!("\\{x:02x}")).collect::<String>()),
+        IDLValue::Record(fs) => {
+            let mut order: Vec<usize> = (0..fs.len()).collect();
+            rng.shuffle(&mut order);
+            format!(
+                "record {{ {} }}",
+                order
+                    .iter()
+                    .map(|i| format!("{} = {}", lab(&fs[*i].id, rng), value_text(&fs[*i].val, rng)))
+                    .collect::<Vec<_>>()
+                    .join("; ")
+            )
+        }
+        IDLValue::Variant(x) => format!("variant {{ {} = {} }}", lab(&x.0.id, rng), value_text(&x.0.val, rng)),
+        IDLValue::Principal(p) => format!("principal \"{p}\""),
+        IDLValue::Service(p) => format!("service \"{p}\""),
+        IDLValue::Func(p, m) => format!("func \"{p}\".{}", quote(m)),
+        IDLValue::Number(n) => n.clone(),
+    }
+}
+
+// ---------------------------------------------------------------------------------------
+// family 4: wire
+
+fn shuffle_fields(v: &IDLValue, rng: &mut Rng) -> IDLValue {
+    match v {
+        IDLValue::Opt(x) => IDLValue::Opt(Box::new(shuffle_fields(x, rng))),
+        IDLValue::Vec(xs) => IDLValue::Vec(xs.iter().map(|x| shuffle_fields(x, rng)).collect()),
+        IDLValue::Record(fs) => {
+            let mut out: Vec<IDLField> = fs
+                .iter()
+                .map(|f| IDLField {
+                    id: f.id.clone(),
+                    val: shuffle_fields(&f.val, rng),
+                })
+                .collect();
+            rng.shuffle(&mut out);
+            IDLValue::Record(out)
+        }
+        IDLValue::Variant(x) => IDLValue::Variant(VariantValue(
+            Box::new(IDLField {
+                id: x.0.id.clone(),
+                val: shuffle_fields(&x.0.val, rng),
+            }),
+            x.1,
+        )),
+        other => other.clone(),
+    }
+}
+
+fn wire_family(ctx: &mut Ctx, rng: &mut Rng) {
+    let cfg = TypeCfg {
+        max_defs: 2,
+        max_depth: 3,
+        max_fields: 4,
+        refs: false,
+        empty: false,
+        ref_pct: 15,
+    };
+    let env0 = gen_env(rng, &cfg);
+    let t0 = gen_types(rng, &cfg, &env0, 1).pop().unwrap();
+    let mut names = Names::new();
+    let pct = *rng.pick(&[50u64, 100]);
+    let env = REnv(env0.0.iter().map(|t| rename_fields(rng, t, &mut names, pct)).collect());
+    let t = rename_fields(rng, &t0, &mut names, pct);
+    if names.is_empty() || !names_consistent(&names) || !wire::encodable(&env, &t) {
+        ctx.count("excluded:no-names-or-unencodable");
+        return;
+    }
+    let vg = ValGen::new(&env);
+    let mut fuel = 25;
+    let Some(v) = vg.gen(rng, &t, &mut fuel) else {
+        ctx.count("excluded:uninhabited");
+        return;
+    };
+    let (Ok(vn), Ok(vi)) = (to_idl(&env, &t, &v, Some(&names)), to_idl(&env, &t, &v, None)) else {
+        ctx.count("excluded:to_idl");
+        return;
+    };
+    let expect = model_value(&vi);
+    let (env_n, t_n) = (to_candid_env(&env, Some(&names)), to_candid_type(&t, Some(&names)));
+    let (env_i, t_i) = (to_candid_env(&env, None), to_candid_type(&t, None));
+    let shuffled = rng.bool();
+    let (vn_in, vi_in) = if shuffled { (shuffle_fields(&vn, rng), shuffle_fields(&vi, rng)) } else { (vn.clone(), vi.clone()) };
+    // known defects of the untyped decoder keyed on the *spelling* of an expected label
+    let has_underscore = names.values().any(|n| n == "_");
+    let has_comma = names.values().any(|n| n.contains(','));
+    let input = |bytes: &[u8]| {
+        json!({
+            "env": env.to_string(),
+            "type": t.to_string(),
+            "value": v.to_string(),
+            "names": names.iter().map(|(k, v)| format!("{k}={v:?}")).collect::<Vec<_>>(),
+            "bytes": hex(bytes),
+            "value_fields_shuffled": shuffled,
+        })
+    };
+    // (value spelling, type spelling used to encode) -> decode against the other spelling
+    let combos: [(&str, &IDLValue, &TypeEnv, &Type, &TypeEnv, &Type, &str); 4] = [
+        ("named-value/named-type", &vn_in, &env_n, &t_n, &env_i, &t_i, "numeric"),
+        ("numeric-value/numeric-type", &vi_in, &env_i, &t_i, &env_n, &t_n, "named"),
+        ("named-value/numeric-type", &vn_in, &env_i, &t_i, &env_n, &t_n, "named"),
+        ("numeric-value/named-type", &vi_in, &env_n, &t_n, &env_i, &t_i, "numeric"),
+    ];
+    let mut all_bytes: Vec<Vec<u8>> = Vec::new();
+    for (what, val, eenv, ety, denv, dty, dspell) in combos {
+        let args = IDLArgs { args: vec![val.clone()] };
+        let bytes = match catch(|| args.to_bytes_with_types(eenv, &[ety.clone()])) {
+            Ok(Ok(b)) => b,
+            Ok(Err(e)) => {
+                ctx.violation(
+                    &format!("wire|encode-fails|{what}|{}", err_class(&e)),
+                    &format!("to_bytes_with_types failed for {what}{}: {e}", if shuffled { " (value fields in shuffled order)" } else { "" }),
+                    input(&[]),
+                );
+                continue;
+            }
+            Err(p) => {
+                ctx.violation(&format!("panic|wire|encode|{what}|{}", short(&p.location)), &p.message, input(&[]));
+                continue;
+            }
+        };
+        // on the wire: ids ascending (the reference decoder rejects anything else), same value
+        match wire::decode(&bytes) {
+            Ok(d) => {
+                if d.values.len() != 1 {
+                    ctx.violation(&format!("wire|reference-decode|{what}|arg-count"), "one argument expected", input(&bytes));
+                } else if let Some(df) = diff(&expect, &super::common::future_as_null(&d.values[0]), &mut String::from("v")) {
+                    ctx.violation(
+                        &format!("wire|reference-decode|{what}|value-mismatch"),
+                        &format!("reference decoder reads a different value at {df}"),
+                        input(&bytes),
+                    );
+                } else {
+                    ctx.count("agree:wire-ids-ascending-and-value");
+                }
+            }
+            Err(e) => ctx.violation(
+                &format!("wire|encoder-output-malformed|{what}"),
+                &format!("reference decoder rejects the encoder's output: {e:?}"),
+                input(&bytes),
+            ),
+        }
+        match catch(|| IDLArgs::from_bytes_with_types(&bytes, denv, &[dty.clone()])) {
+            Ok(Ok(a)) if a.args.len() == 1 => match diff(&expect, &model_value(&a.args[0]), &mut String::from("v")) {
+                None => ctx.count(&format!("agree:wire:{what}")),
+                Some(df) => {
+                    let sig = if dspell == "named" && has_underscore && df.contains("record fields") {
+                        "wire|decode-against-named-type|label-underscore-dropped".to_string()
+                    } else {
+                        format!("wire|decode-against-{dspell}-type|{what}|value-mismatch")
+                    };
+                    ctx.violation(
+                        &sig,
+                        &format!("encoded as {what}, decoded against the {dspell} spelling: differs at {df}"),
+                        input(&bytes),
+                    )
+                }
+            },
+            Ok(Ok(a)) => ctx.violation(
+                &format!("wire|decode-against-{dspell}-type|{what}|arg-count"),
+                &format!("{} arguments", a.args.len()),
+                input(&bytes),
+            ),
+            Ok(Err(e)) => ctx.violation(
+                &format!("wire|decode-against-{dspell}-type|{what}|{}", err_class(&e)),
+                &format!("encoded as {what}, decoding against the {dspell} spelling fails: {e}"),
+                input(&bytes),
+            ),
+            Err(p) => {
+                let sig = if dspell == "named" && has_comma && p.location.contains("value.rs") {
+                    format!("panic|wire|decode-against-named-type|label-with-comma|{}", short(&p.location))
+                } else {
+                    format!("panic|wire|decode-against-{dspell}-type|{}", short(&p.location))
+                };
+                ctx.violation(&sig, &p.message, input(&bytes))
+            }
+        }
+        all_bytes.push(bytes);
+    }
+    if all_bytes.len() == 4 && all_bytes.iter().any(|b| *b != all_bytes[0]) {
+        ctx.count("observed:spellings-give-different-bytes");
+    }
+    ctx.count(if shuffled { "cover:wire:value-fields-shuffled" } else { "cover:wire:value-fields-in-id-order" });
+    let spelled_differently = {
+        // is some record written in an order that differs between spelling and id?
+        names.len() >= 2
+    };
+    if spelled_differently {
+        ctx.count("cover:wire:two-or-more-names");
+    }
+    ctx.nontrivial(hash_str(&format!("{}|{}", super::common::shape(&env, &t, 5), names.len())));
+    ctx.sample(|| input(all_bytes.first().map(|b| &b[..]).unwrap_or(&[])));
+}
+
+// ---------------------------------------------------------------------------------------
+// family 5: binary header
+
+fn header_family(ctx: &mut Ctx, rng: &mut Rng) {
+    let n = 2 + rng.usize(3);
+    let base = match rng.below(4) {
+        0 => rng.below(5) as u32,
+        1 => u32::MAX - rng.below(5) as u32,
+        2 => label_hash(&gen_name(rng)),
+        _ => rng.next() as u32,
+    };
+    let mut ids: Vec<u32> = (0..n)
+        .map(|_| match rng.below(4) {
+            0 => base,
+            1 => base.wrapping_add(rng.below(3) as u32),
+            2 => base.wrapping_sub(rng.below(3) as u32),
+            _ => rng.next() as u32,
+        })
+        .collect();
+    match rng.below(4) {
+        0 => ids.sort(),
+        1 => {
+            ids.sort();
+            ids.dedup();
+        }
+        2 => {
+            ids.sort();
+            ids.reverse();
+        }
+        _ => {}
+    }
+    let ascending = ids.windows(2).all(|w| w[0] < w[1]);
+    let is_variant = rng.bool();
+    let mut b = b"DIDL\x01".to_vec();
+    b.push(if is_variant { 0x6b } else { 0x6c });
+    b.extend(leb_u64(ids.len() as u64));
+    for id in &ids {
+        b.extend(leb_u64(*id as u64));
+        b.push(if is_variant { 0x7f } else { 0x7d }); // null / nat
+    }
+    b.extend([0x01, 0x00]);
+    if is_variant {
+        b.push(0x00); // first alternative, null payload
+    } else {
+        for i in 0..ids.len() {
+            b.push(i as u8 + 1);
+        }
+    }
+    let kind = if is_variant { "variant" } else { "record" };
+    let input = || json!({"bytes": hex(&b), "ids": ids, "kind": kind});
+    let model_ok = wire::decode(&b).is_ok();
+    if model_ok != ascending {
+        ctx.count("excluded:reference-decoder-disagrees-with-crafting");
+        return;
+    }
+    match catch(|| IDLArgs::from_bytes(&b)) {
+        Ok(Ok(a)) => {
+            if !ascending {
+                let why = if ids.windows(2).any(|w| w[0] == w[1]) { "duplicate" } else { "unsorted" };
+                ctx.violation(
+                    &format!("header-accepts-bad-field-ids|{kind}|{why}"),
+                    &format!("table entry with ids {ids:?} decoded as {a}"),
+                    input(),
+                );
+            } else {
+                // the value carries exactly these ids
+                let got: Vec<u32> = match a.args.first() {
+                    Some(IDLValue::Record(fs)) => fs.iter().map(|f| f.id.get_id()).collect(),
+                    Some(IDLValue::Variant(v)) => vec![v.0.id.get_id()],
+                    _ => vec![],
+                };
+                let want: Vec<u32> = if is_variant { vec![ids[0]] } else { ids.clone() };
+                if got != want {
+                    ctx.violation(
+                        &format!("header|decoded-ids-mismatch|{kind}"),
+                        &format!("decoded ids {got:?}, table ids {want:?}"),
+                        input(),
+                    );
+                } else {
+                    ctx.count("agree:header-accepted");
+                }
+            }
+        }
+        Ok(Err(e)) => {
+            if ascending {
+                ctx.violation(
+                    &format!("header-rejects-sorted-ids|{kind}|{}", err_class(&e)),
+                    &format!("ids {ids:?} are strictly ascending but the message is rejected: {e}"),
+                    input(),
+                );
+            } else {
+                ctx.count("agree:header-rejected");
+            }
+        }
+        Err(p) => ctx.violation(&format!("panic|header|{}", short(&p.location)), &p.message, input()),
+    }
+    ctx.count(&format!("cover:header:{kind}:{}", if ascending { "ascending" } else { "bad-order" }));
+    ctx.nontrivial(hash_str(&format!("{ids:?}{kind}")));
+    ctx.sample(input);
+}
+
+// ---------------------------------------------------------------------------------------
+// family 6: derived types
+
+#[derive(Clone, Debug)]
+enum L {
+    N(&'static str),
+    I(u32),
+}
+#[derive(Clone, Debug)]
+enum Sh {
+    Any,
+    Rec(Vec<(L, Sh)>),
+    Var(Vec<(L, Sh)>),
+    Opt(Box<Sh>),
+    Vec(Box<Sh>),
+}
+fn n(s: &'static str) -> (L, Sh) {
+    (L::N(s), Sh::Any)
+}
+fn i(k: u32) -> (L, Sh) {
+    (L::I(k), Sh::Any)
+}
+fn ns(s: &'static str, sh: Sh) -> (L, Sh) {
+    (L::N(s), sh)
+}
+
+fn shape_check(env: &REnv, t: &RType, sh: &Sh, path: &str) -> Result<usize, String> {
+    let t = env.unfold(t).ok_or("dangling")?;
+    match (sh, t) {
+        (Sh::Any, _) => Ok(0),
+        (Sh::Opt(s), RType::Opt(x)) | (Sh::Vec(s), RType::Vec(x)) => shape_check(env, x, s, path),
+        (Sh::Rec(fs), RType::Record(ts)) | (Sh::Var(fs), RType::Variant(ts)) => {
+            let mut want: Vec<(u32, &L, &Sh)> = fs
+                .iter()
+                .map(|(l, s)| {
+                    (
+                        match l {
+                            L::N(name) => label_hash(name),
+                            L::I(k) => *k,
+                        },
+                        l,
+                        s,
+                    )
+                })
+                .collect();
+            want.sort_by_key(|w| w.0);
+            let got: Vec<u32> = ts.iter().map(|f| f.0).collect();
+            let wids: Vec<u32> = want.iter().map(|w| w.0).collect();
+            if got != wids {
+                return Err(format!(
+                    "{path}: field ids {got:?}, expected the sorted spec hashes {wids:?} of {:?}",
+                    want.iter().map(|w| w.1).collect::<Vec<_>>()
+                ));
+            }
+            let mut cnt = ts.len();
+            for ((_, l, s), (_, ft)) in want.iter().zip(ts.iter()) {
+                cnt += shape_check(env, ft, s, &format!("{path}.{l:?}"))?;
+            }
+            Ok(cnt)
+        }
+        (s, t) => Err(format!("{path}: expected {s:?}, derived type is {t}")),
+    }
+}
+
+macro_rules! cdt {
+    ($($item:item)*) => { $( #[derive(CandidType, Deserialize, PartialEq, Debug, Clone)] $item )* };
+}
+
+cdt! {
+    struct D01 { a: u8, b: String, c: bool }
+    struct D02 { #[serde(rename = "type")] ty: u8, #[serde(rename = "record")] r: u8, #[serde(rename = "vec")] v: u8, #[serde(rename = "opt")] o: u8 }
+    struct D03 { #[serde(rename = "名前")] n: u8, #[serde(rename = "with space")] w: u8, #[serde(rename = "é")] e: u8 }
+    struct D04 { r#type: u8, r#fn: u8, r#match: u8, r#async: u8 }
+    struct D05(u8, String);
+    struct D06(u16);
+    struct D07 { zebra: u8, apple: u8, mango: u8, _under: u8, CamelCase: u8 }
+    enum E01 { A, B, C }
+    enum E02 { Unit, Tuple(u8, String), Newtype(u16), Struct { x: u8, y: String } }
+    enum E03 { #[serde(rename = "type")] T, #[serde(rename = "opt")] O(u8), #[serde(rename = "with space")] W { #[serde(rename = "名")] n: u8 } }
+    enum E04 { r#type, r#fn(u8), r#loop { r#in: u8 } }
+    struct D08 { #[serde(rename = "1")] one: u8, #[serde(rename = "42")] n42: u8, #[serde(rename = "0x1F")] h: u8, #[serde(rename = "-1")] m: u8 }
+    struct D09 { #[serde(rename = "")] empty: u8, #[serde(rename = "__")] us: u8, #[serde(rename = " ")] sp: u8 }
+    struct D10 { #[serde(rename = "quo\"te")] q: u8, #[serde(rename = "back\\slash")] b: u8, #[serde(rename = "new\nline")] nl: u8, #[serde(rename = "tab\t")] t: u8 }
+    struct D11 { #[serde(rename = "\u{1F600}")] emoji: u8, #[serde(rename = "\u{301}x")] comb: u8, #[serde(rename = "\u{feff}")] bom: u8, #[serde(rename = "\u{202e}abc")] bidi: u8 }
+    struct D12 { inner: D01, list: Vec<D05>, opt: Option<E01>, renamed: D02 }
+    enum E05 { #[serde(rename = "Ok")] Good(u8), #[serde(rename = "Err")] Bad(String) }
+    struct D13 { Ok: u8, Err: u8, None: u8, Some: u8 }
+    struct D14 { id: u64, name: String, value: i32, key: u8, head: u8, tail: u8 }
+    struct D16 { #[serde(rename = "a")] x: u8, b: u8, #[serde(rename = "c")] zzz: u8 }
+    enum E06 { #[serde(rename = "a")] X, b, #[serde(rename = "c")] Z(u8) }
+    struct D17 { nat: u8, text: u8, int: u8, bool: u8, principal: u8, blob: u8, service: u8, func: u8, query: u8, oneway: u8, null: u8, empty: u8, reserved: u8, variant: u8, record: u8 }
+    struct D18<T> { v: T, n: u8 }
+    struct D19 { #[serde(rename(serialize = "ser", deserialize = "ser"))] f: u8, g: u8 }
+    enum E07 { A { a: u8 }, B { b: u8 }, #[serde(rename = "C c")] C { #[serde(rename = "c c")] c: u8 } }
+    struct D20 { f0: u8, f1: u8, f2: u8, f3: u8, f4: u8, f5: u8, f6: u8, f7: u8, f8: u8, f9: u8 }
+    struct D21(u8, u16, u32, u64);
+    struct D22 {}
+    enum E08 { Only }
+    struct D23 { tuple: (u8, String), arr: Vec<(u8, u8)> }
+    struct D24 { #[serde(rename = "4294967295")] m: u8, #[serde(rename = "4294967296")] n: u8 }
+    struct D25 { Z: u8, a: u8, A: u8, z: u8 }
+    struct D26 { kviccgm: u8, kmoz: u8, ugidop: u8 }
+}
+
+fn derived_case<T>(ctx: &mut Ctx, name: &str, v: T, sh: Sh)
+where
+    T: CandidType + for<'a> Deserialize<'a> + PartialEq + std::fmt::Debug,
+{
+    let input = |extra: &str| json!({"type": name, "value": format!("{v:?}"), "detail": extra});
+    let ty = match catch(T::ty) {
+        Ok(t) => t,
+        Err(p) => {
+            ctx.violation(&format!("panic|derived|ty|{name}"), &p.message, input(""));
+            return;
+        }
+    };
+    let (renv, rts) = match from_candid(&TypeEnv::new(), &[ty.clone()]) {
+        Ok(x) => x,
+        Err(e) => {
+            ctx.violation(&format!("derived|type-conversion|{name}"), &e, input(""));
+            return;
+        }
+    };
+    match shape_check(&renv, &rts[0], &sh, name) {
+        Ok(cnt) => ctx.count_n("agree:derived-field-ids", cnt as u64),
+        Err(e) => {
+            ctx.violation(&format!("derived|field-ids-mismatch|{name}"), &e, input(&rts[0].to_string()));
+            return;
+        }
+    }
+    let bytes = match catch(|| Encode!(&v)) {
+        Ok(Ok(b)) => b,
+        Ok(Err(e)) => {
+            ctx.violation(&format!("derived|encode-fails|{name}"), &e.to_string(), input(""));
+            return;
+        }
+        Err(p) => {
+            ctx.violation(&format!("panic|derived|encode|{name}"), &p.message, input(""));
+            return;
+        }
+    };
+    let hx = hex(&bytes);
+    // ids ascending on the wire
+    let rv = match wire::decode(&bytes) {
+        Ok(d) if d.values.len() == 1 => d.values[0].clone(),
+        other => {
+            ctx.violation(
+                &format!("derived|encoder-output-malformed|{name}"),
+                &format!("reference decoder: {:?}", other.err()),
+                input(&hx),
+            );
+            return;
+        }
+    };
+    // untyped, against the type spelled with numeric ids and with the derived names
+    let tnum = to_candid_type(&rts[0], None);
+    let envnum = to_candid_env(&renv, None);
+    let a1 = match catch(|| IDLArgs::from_bytes_with_types(&bytes, &envnum, &[tnum.clone()])) {
+        Ok(Ok(a)) if a.args.len() == 1 => a,
+        Ok(Ok(_)) => return,
+        Ok(Err(e)) => {
+            ctx.violation(&format!("derived|decode-against-numeric-type|{name}"), &e.to_string(), input(&hx));
+            return;
+        }
+        Err(p) => {
+            ctx.violation(&format!("panic|derived|decode-numeric|{name}"), &p.message, input(&hx));
+            return;
+        }
+    };
+    if let Some(d) = diff(&rv, &model_value(&a1.args[0]), &mut String::from("v")) {
+        ctx.violation(
+            &format!("derived|numeric-type-value-mismatch|{name}"),
+            &format!("reference decoder vs decode against numeric ids differ at {d}"),
+            input(&hx),
+        );
+    }
+    match catch(|| IDLArgs::from_bytes_with_types(&bytes, &TypeEnv::new(), &[ty.clone()])) {
+        Ok(Ok(a2)) if a2.args.len() == 1 => {
+            if let Some(d) = diff(&model_value(&a1.args[0]), &model_value(&a2.args[0]), &mut String::from("v")) {
+                ctx.violation(
+                    &format!("derived|named-vs-numeric-decode-mismatch|{name}"),
+                    &format!("decoding against T::ty() and against its numeric spelling differ at {d}"),
+                    input(&hx),
+                );
+            } else {
+                ctx.count("agree:derived-untyped-decode");
+            }
+        }
+        Ok(Ok(_)) => {}
+        Ok(Err(e)) => ctx.violation(&format!("derived|decode-against-own-type|{name}"), &e.to_string(), input(&hx)),
+        Err(p) => ctx.violation(&format!("panic|derived|decode-named|{name}"), &p.message, input(&hx)),
+    }
+    // natively
+    match catch(|| Decode!(&bytes, T)) {
+        Ok(Ok(back)) if back == v => ctx.count("agree:derived-native-roundtrip"),
+        Ok(Ok(back)) => ctx.violation(
+            &format!("derived|native-roundtrip-mismatch|{name}"),
+            &format!("decoded {back:?}"),
+            input(&hx),
+        ),
+        Ok(Err(e)) => ctx.violation(&format!("derived|native-decode-fails|{name}"), &e.to_string(), input(&hx)),
+        Err(p) => ctx.violation(&format!("panic|derived|native-decode|{name}"), &p.message, input(&hx)),
+    }
+    // vice versa: the untyped value with numeric labels, encoded at the numeric type, is a T
+    match catch(|| a1.to_bytes_with_types(&envnum, &[tnum.clone()])) {
+        Ok(Ok(b2)) => match catch(|| Decode!(&b2, T)) {
+            Ok(Ok(back)) if back == v => ctx.count("agree:derived-numeric-to-native"),
+            Ok(Ok(back)) => ctx.violation(
+                &format!("derived|numeric-to-native-mismatch|{name}"),
+                &format!("decoded {back:?}"),
+                input(&hex(&b2)),
+            ),
+            Ok(Err(e)) => ctx.violation(&format!("derived|numeric-to-native-fails|{name}"), &e.to_string(), input(&hex(&b2))),
+            Err(p) => ctx.violation(&format!("panic|derived|numeric-to-native|{name}"), &p.message, input(&hex(&b2))),
+        },
+        Ok(Err(e)) => ctx.violation(&format!("derived|numeric-reencode-fails|{name}"), &e.to_string(), input(&hx)),
+        Err(p) => ctx.violation(&format!("panic|derived|numeric-reencode|{name}"), &p.message, input(&hx)),
+    }
+    ctx.count(&format!("cover:derived:{name}"));
+    ctx.nontrivial(hash_str(&format!("{name}{hx}")));
+    ctx.sample(|| input(&hx));
+}
+
+fn derived_family(ctx: &mut Ctx, rng: &mut Rng) {
+    let mut r8 = || rng.next() as u8;
+    let s = |k: u8| ["", "a", "hello", "名前", "x\u{0}y"][(k % 5) as usize].to_string();
+    let k = r8() % 36;
+    let (a, b, c, d) = (r8(), r8(), r8(), r8());
+    let rec = Sh::Rec;
+    let var = Sh::Var;
+    match k {
+        0 => derived_case(ctx, "D01", D01 { a, b: s(b), c: c & 1 == 1 }, rec(vec![n("a"), n("b"), n("c")])),
+        1 => derived_case(ctx, "D02", D02 { ty: a, r: b, v: c, o: d }, rec(vec![n("type"), n("record"), n("vec"), n("opt")])),
+        2 => derived_case(ctx, "D03", D03 { n: a, w: b, e: c }, rec(vec![n("名前"), n("with space"), n("é")])),
+        3 => derived_case(ctx, "D04", D04 { r#type: a, r#fn: b, r#match: c, r#async: d }, rec(vec![n("type"), n("fn"), n("match"), n("async")])),
+        4 => derived_case(ctx, "D05", D05(a, s(b)), rec(vec![i(0), i(1)])),
+        5 => derived_case(ctx, "D06", D06(a as u16 * 257), Sh::Any),
+        6 => derived_case(
+            ctx,
+            "D07",
+            D07 { zebra: a, apple: b, mango: c, _under: d, CamelCase: a ^ b },
+            rec(vec![n("zebra"), n("apple"), n("mango"), n("_under"), n("CamelCase")]),
+        ),
+        7 => derived_case(ctx, "E01", [E01::A, E01::B, E01::C][(a % 3) as usize].clone(), var(vec![n("A"), n("B"), n("C")])),
+        8 => {
+            let v = match a % 4 {
+                0 => E02::Unit,
+                1 => E02::Tuple(b, s(c)),
+                2 => E02::Newtype(b as u16),
+                _ => E02::Struct { x: b, y: s(c) },
+            };
+            derived_case(
+                ctx,
+                "E02",
+                v,
+                var(vec![n("Unit"), ns("Tuple", rec(vec![i(0), i(1)])), n("Newtype"), ns("Struct", rec(vec![n("x"), n("y")]))]),
+            )
+        }
+        9 => {
+            let v = match a % 3 {
+                0 => E03::T,
+                1 => E03::O(b),
+                _ => E03::W { n: b },
+            };
+            derived_case(ctx, "E03", v, var(vec![n("type"), n("opt"), ns("with space", rec(vec![n("名")]))]))
+        }
+        10 => {
+            let v = match a % 3 {
+                0 => E04::r#type,
+                1 => E04::r#fn(b),
+                _ => E04::r#loop { r#in: b },
+            };
+            derived_case(ctx, "E04", v, var(vec![n("type"), n("fn"), ns("loop", rec(vec![n("in")]))]))
+        }
+        11 => derived_case(ctx, "D08", D08 { one: a, n42: b, h: c, m: d }, rec(vec![n("1"), n("42"), n("0x1F"), n("-1")])),
+        12 => derived_case(ctx, "D09", D09 { empty: a, us: b, sp: c }, rec(vec![n(""), n("__"), n(" ")])),
+        13 => derived_case(
+            ctx,
+            "D10",
+            D10 { q: a, b, nl: c, t: d },
+            rec(vec![n("quo\"te"), n("back\\slash"), n("new\nline"), n("tab\t")]),
+        ),
+        14 => derived_case(
+            ctx,
+            "D11",
+            D11 { emoji: a, comb: b, bom: c, bidi: d },
+            rec(vec![n("\u{1F600}"), n("\u{301}x"), n("\u{feff}"), n("\u{202e}abc")]),
+        ),
+        15 => derived_case(
+            ctx,
+            "D12",
+            D12 {
+                inner: D01 { a, b: s(b), c: true },
+                list: vec![D05(c, s(d)); (a % 3) as usize],
+                opt: if b & 1 == 1 { Some(E01::B) } else { None },
+                renamed: D02 { ty: a, r: b, v: c, o: d },
+            },
+            rec(vec![
+                ns("inner", rec(vec![n("a"), n("b"), n("c")])),
+                ns("list", Sh::Vec(Box::new(rec(vec![i(0), i(1)])))),
+                ns("opt", Sh::Opt(Box::new(var(vec![n("A"), n("B"), n("C")])))),
+                ns("renamed", rec(vec![n("type"), n("record"), n("vec"), n("opt")])),
+            ]),
+        ),
+        16 => derived_case(ctx, "E05", if a & 1 == 1 { E05::Good(b) } else { E05::Bad(s(b)) }, var(vec![n("Ok"), n("Err")])),
+        17 => derived_case(ctx, "D13", D13 { Ok: a, Err: b, None: c, Some: d }, rec(vec![n("Ok"), n("Err"), n("None"), n("Some")])),
+        18 => derived_case(
+            ctx,
+            "D14",
+            D14 { id: a as u64 * 0x0101_0101_0101, name: s(b), value: c as i32 - 128, key: d, head: a, tail: b },
+            rec(vec![n("id"), n("name"), n("value"), n("key"), n("head"), n("tail")]),
+        ),
+        19 => derived_case(ctx, "D16", D16 { x: a, b, zzz: c }, rec(vec![n("a"), n("b"), n("c")])),
+        20 => derived_case(ctx, "E06", [E06::X, E06::b, E06::Z(b)][(a % 3) as usize].clone(), var(vec![n("a"), n("b"), n("c")])),
+        21 => derived_case(
+            ctx,
+            "D17",
+            D17 { nat: a, text: b, int: c, bool: d, principal: a, blob: b, service: c, func: d, query: a, oneway: b, null: c, empty: d, reserved: a, variant: b, record: c },
+            rec(vec![
+                n("nat"), n("text"), n("int"), n("bool"), n("principal"), n("blob"), n("service"), n("func"), n("query"), n("oneway"), n("null"),
+                n("empty"), n("reserved"), n("variant"), n("record"),
+            ]),
+        ),
+        22 => derived_case(ctx, "D18<u16>", D18::<u16> { v: (a as u16).wrapping_mul(300), n: b }, rec(vec![n("v"), n("n")])),
+        23 => derived_case(ctx, "D18<D05>", D18::<D05> { v: D05(a, s(b)), n: c }, rec(vec![ns("v", rec(vec![i(0), i(1)])), n("n")])),
+        24 => derived_case(ctx, "D19", D19 { f: a, g: b }, rec(vec![n("ser"), n("g")])),
+        25 => {
+            let v = match a % 3 {
+                0 => E07::A { a: b },
+                1 => E07::B { b },
+                _ => E07::C { c: b },
+            };
+            derived_case(
+                ctx,
+                "E07",
+                v,
+                var(vec![ns("A", rec(vec![n("a")])), ns("B", rec(vec![n("b")])), ns("C c", rec(vec![n("c c")]))]),
+            )
+        }
+        26 => derived_case(
+            ctx,
+            "D20",
+            D20 { f0: a, f1: b, f2: c, f3: d, f4: a, f5: b, f6: c, f7: d, f8: a, f9: b },
+            rec(vec![n("f0"), n("f1"), n("f2"), n("f3"), n("f4"), n("f5"), n("f6"), n("f7"), n("f8"), n("f9")]),
+        ),
+        27 => derived_case(ctx, "D21", D21(a, b as u16, c as u32, d as u64), rec(vec![i(0), i(1), i(2), i(3)])),
+        28 => derived_case(ctx, "D22", D22 {}, rec(vec![])),
+        29 => derived_case(ctx, "E08", E08::Only, var(vec![n("Only")])),
+        30 => derived_case(
+            ctx,
+            "D23",
+            D23 { tuple: (a, s(b)), arr: vec![(c, d); (a % 3) as usize] },
+            rec(vec![ns("tuple", rec(vec![i(0), i(1)])), ns("arr", Sh::Vec(Box::new(rec(vec![i(0), i(1)]))))]),
+        ),
+        31 => derived_case(ctx, "D24", D24 { m: a, n: b }, rec(vec![n("4294967295"), n("4294967296")])),
+        32 => derived_case(ctx, "D25", D25 { Z: a, a: b, A: c, z: d }, rec(vec![n("Z"), n("a"), n("A"), n("z")])),
+        33 => derived_case(ctx, "D26", D26 { kviccgm: a, kmoz: b, ugidop: c }, rec(vec![n("kviccgm"), n("kmoz"), n("ugidop")])),
+        34 => derived_case(ctx, "Option<D03>", Some(D03 { n: a, w: b, e: c }), Sh::Opt(Box::new(rec(vec![n("名前"), n("with space"), n("é")])))),
+        _ => derived_case(ctx, "Vec<E03>", vec![E03::T, E03::O(a), E03::W { n: b }], Sh::Vec(Box::new(var(vec![n("type"), n("opt"), ns("with space", rec(vec![n("名")]))])))),
+    }
+}
+
+// ---------------------------------------------------------------------------------------
+// family 7: record! / variant! macros (literal tokens; pairs verified against R5 first)
+
+fn macros_family(ctx: &mut Ctx, rng: &mut Rng) {
+    for (a, b) in FIXED_PAIRS {
+        if label_hash(a) != label_hash(b) {
+            ctx.violation("harness|fixed-pair-does-not-collide", &format!("{a} / {b}"), json!({}));
+            return;
+        }
+    }
+    let nat = || -> Type { TypeInner::Nat.into() };
+    let text = || -> Type { TypeInner::Text.into() };
+    let k = rng.below(10);
+    let reject = |ctx: &mut Ctx, what: &str, r: Result<Type, crate::ctx::PanicInfo>| match r {
+        Err(_) => ctx.count(&format!("agree:macro-rejects:{what}")),
+        Ok(t) => ctx.violation(
+            &format!("macro-accepts-collision|{what}"),
+            &format!("{what} with two labels of one id returned {t}"),
+            json!({"macro": what}),
+        ),
+    };
+    match k {
+        0 => reject(ctx, "record!:kviccgm/jmst", catch(|| candid::record! { kviccgm: nat(); jmst: text() })),
+        1 => reject(ctx, "record!:ugidop/vmgunot", catch(|| candid::record! { ugidop: nat(); other: text(); vmgunot: text() })),
+        2 => reject(ctx, "variant!:rf_kdyb/kmoz", catch(|| candid::variant! { rf_kdyb: nat(); kmoz: text() })),
+        3 => reject(ctx, "record!:a/97", catch(|| candid::record! { a: nat(); 97: text() })),
+        4 => reject(ctx, "variant!:97/a", catch(|| candid::variant! { 97: nat(); a: text() })),
+        5 => reject(ctx, "record!:id/23515", catch(|| candid::record! { id: nat(); 23515: text() })),
+        6 => reject(ctx, "record!:same-name-twice", catch(|| candid::record! { x: nat(); x: text() })),
+        7 => reject(ctx, "variant!:same-id-twice", catch(|| candid::variant! { 5: nat(); 5: text() })),
+        _ => {
+            // controls: accepted, ids are the spec hashes, sorted by id not by spelling
+            let r = catch(|| {
+                (
+                    candid::record! { zebra: nat(); apple: text(); kviccgm: nat(); kmoz: nat(); 7: nat() },
+                    candid::variant! { Ok: nat(); Err: text(); 0: nat() },
+                )
+            });
+            match r {
+                Ok((rt, vt)) => {
+                    for (t, names, what) in [
+                        (rt, vec![label_hash("zebra"), label_hash("apple"), label_hash("kviccgm"), label_hash("kmoz"), 7], "record!"),
+                        (vt, vec![label_hash("Ok"), label_hash("Err"), 0], "variant!"),
+                    ] {
+                        let mut want = names.clone();
+                        want.sort();
+                        let got: Vec<u32> = match from_candid(&TypeEnv::new(), &[t]) {
+                            Ok((_, ts)) => match &ts[0] {
+                                RType::Record(fs) | RType::Variant(fs) => fs.iter().map(|f| f.0).collect(),
+                                _ => vec![],
+                            },
+                            Err(_) => vec![],
+                        };
+                        if got != want {
+                            ctx.violation(
+                                &format!("macro-field-ids-mismatch|{what}"),
+                                &format!("{what} gives ids {got:?}, expected sorted spec hashes {want:?}"),
+                                json!({"macro": what}),
+                            );
+                        } else {
+                            ctx.count(&format!("agree:macro-control:{what}"));
+                        }
+                    }
+                }
+                Err(p) => ctx.violation("macro-control-panics", &p.message, json!({})),
+            }
+        }
+    }
+    ctx.nontrivial(hash_str(&format!("macro{k}")));
+}
+
+pub fn run(ctx: &mut Ctx) {
+    ctx.max_violations = 80;
+    let mut pairs: Option<Vec<(String, String)>> = None;
+    let seed = ctx.seed;
+    ctx.cases("hash-and-label", 0.2, hash_family);
+    ctx.cases("collisions", 0.13, |ctx, rng| {
+        if pairs.is_none() {
+            let p = birthday(seed);
+            ctx.count_n("cover:birthday-pairs-found", p.len() as u64);
+            pairs = Some(p);
+        }
+        collisions_family(ctx, rng, pairs.as_ref().unwrap());
+    });
+    ctx.cases("parser-path", 0.2, parser_family);
+    ctx.cases("wire", 0.2, wire_family);
+    ctx.cases("binary-header", 0.1, header_family);
+    ctx.cases("derived-types", 0.15, derived_family);
+    ctx.cases("macros", 0.02, macros_family);
+}
